@@ -52,6 +52,18 @@ func timedOut() {
 	if waitFor > 300*time.Millisecond {
 		waitFor = 300 * time.Millisecond
 	}
+	caseWedged = true
+}
+
+// caseWedged: a wait of the CURRENT case has expired. The case is a violation already and whatever it observes from here
+// on does not matter, so its remaining waits are not worth more than a millisecond (reset by newHarness).
+var caseWedged bool
+
+func bound() time.Duration {
+	if caseWedged {
+		return time.Millisecond
+	}
+	return waitFor
 }
 
 // cleanupWait bounds waits that happen after the last observation of a case (pacing only: leaving early leaves
@@ -420,7 +432,7 @@ type depRec struct {
 // Deploy signals its arrival and then parks at the gate); the deadline is the wedged-system verdict only. Fewer calls than
 // expected can only be "observed" by that verdict (a broken tree), never on a loaded healthy one.
 func (h *harness) waitDeploy() depRec {
-	deadline := time.After(waitFor)
+	deadline := time.After(bound())
 	for {
 		h.mu.Lock()
 		n := len(h.arrivals)
@@ -545,6 +557,7 @@ type step struct {
 
 func newHarness(wc int, deadlineMs int) (*harness, error) {
 	slog.SetDefault(slog.New(sigHandler{}))
+	caseWedged = false
 	h := &harness{wc: wc, logBase: storeWroteCount.Load(), clock: &stopClock{FrozenClock: clocks.NewFrozenClock()}, loc: newMemLoc(), arrived: make(chan struct{}, 4096),
 		gate: &gate{ch: make(chan struct{})}, known: map[string]bool{}}
 	cfg := &config.Config{WorkerCount: wc, KeyGroupCount: keyGroups, WorkingStorageLocation: "mem://w",
@@ -655,7 +668,7 @@ func (h *harness) fin(ok bool, who int) step {
 		// calls of a new start have begun to arrive; no observation is made before that (deadline = wedged verdict only).
 		// split (did the splitter start, from which checkpoint) is read afterwards: SourceSplitter.Start is called by the
 		// start goroutine BEFORE it queues the "running" task, so it is ordered before the status change.
-		deadline := time.Now().Add(waitFor)
+		deadline := time.Now().Add(bound())
 		for {
 			h.job.VerifSync()
 			st := h.job.VerifStatus()
@@ -782,7 +795,7 @@ func (h *harness) publicationsSettled() {
 	if storeWroteBroken.Load() {
 		return
 	}
-	deadline := time.Now().Add(waitFor)
+	deadline := time.Now().Add(bound())
 	for {
 		h.loc.mu.Lock()
 		entered := h.loc.snapWrites
@@ -855,7 +868,7 @@ func (h *harness) ack(who, id string, ck uint64) (s step) {
 		// snapshot, so "no publication started" is known when the ack returns). Poll until one of the two events that
 		// must follow: the file is written AND the checkpoint is current, or the storage holds the file write. The
 		// deadline is the wedged verdict only; the 50 us timer paces the poll.
-		deadline := time.Now().Add(waitFor)
+		deadline := time.Now().Add(bound())
 		for time.Now().Before(deadline) {
 			if h.loc.snapshot(ck) != nil && h.job.VerifCurrentCheckpointID() == ck {
 				o.Published = ck
